@@ -129,21 +129,26 @@ def plan(tier, seed):
     kn = [("k", k) for k, n in K.items() if n.n <= 4]
     u2 = [("idx", 2, i) for i in U2]
     d = 1 if tier == "quick" else 2
+    def depth_for(spec):
+        sz = c04.sd_size(spec)
+        if tier == "quick":
+            return 1 if sz <= 5 else 0
+        return 2 if sz <= 3 else (1 if sz <= 7 else 0)
     for spec in kn:
-        units.append(("K", [spec], d if len(U.resolve(spec).sd[0]) <= 5 else max(0, d - 1), tier))
+        units.append(("K", [spec], depth_for(spec), tier))
     for ch in U.chunks([x for x in u2 if c04.sd_size(x) >= 3], 2):
-        units.append(("U2", ch, d, tier))
+        units.append(("U2", ch, depth_for(ch[0]) if tier != "quick" else 1, tier))
     for ch in U.chunks([x for x in u2 if c04.sd_size(x) < 3], 6):
-        units.append(("U2", ch, d if tier != "quick" else 0, tier))
+        units.append(("U2", ch, 2 if tier != "quick" else 0, tier))
     unis["K(n<=4)"] = len(kn)
     unis["U2c" if tier == "quick" else "U2"] = len(u2)
     i3 = [("i3", i) for i in (U.shard(list(range(1444)), seed, 16) if tier == "quick" else range(1444))]
     unis["I3" + ("[/16]" if tier == "quick" else "")] = len(i3)
     for ch in U.chunks(i3, 6):
         units.append(("I3", ch, 0, tier))
-    f3 = [("idx", 3, i) for i in U.shard(U.F3_indices(True), seed, 128 if tier == "quick" else 4)]
-    f3 += [("idx", 3, i) for i in U.shard(U.catalogue("maa"), seed, 2048 if tier == "quick" else 64)]
-    f3 += [("idx", 3, i) for i in U.shard(U.catalogue("multi"), seed, 16 if tier == "quick" else 1)]
+    f3 = [("idx", 3, i) for i in U.shard(U.F3_indices(True), seed, 128 if tier == "quick" else 16)]
+    f3 += [("idx", 3, i) for i in U.shard(U.catalogue("maa"), seed, 2048 if tier == "quick" else 256)]
+    f3 += [("idx", 3, i) for i in U.shard(U.catalogue("multi"), seed, 16 if tier == "quick" else 2)]
     unis["F3c/MAA3/MULTI3 shards"] = len(f3)
     for ch in U.chunks(f3, 6):
         units.append(("F3", ch, 0, tier))
@@ -340,7 +345,7 @@ def explore_net(net, spec, depth, tier, res):
     vio = []
     prefixes = [()]
     if depth:
-        ex = Explorer(net, lambda n, s: full_ops(n, s), None, config=CONFIG, max_states=400)
+        ex = Explorer(net, lambda n, s: full_ops(n, s), None, config=CONFIG, max_states=400 if depth < 2 else 150)
         prefixes = [h for h in ex.run(depth=depth)]
         res["states"] += len(ex.states)
         res["transitions"] += ex.transitions
